@@ -1369,6 +1369,12 @@ class _ExprNorm(ast.NodeTransformer):
                 else:
                     args.append(a)
             node.args = args
+        # inspect.getmembers(<module object>) -> sorted(vars(<module object>).items())   (the names of a module are those of its namespace)
+        if f in ("inspect.getmembers", "getmembers") and len(node.args) == 1 and not node.keywords and isinstance(node.args[0], ast.Subscript) \
+                and u(node.args[0].value) == "sys.modules":
+            ns = ast.Call(func=ast.Name(id="vars", ctx=ast.Load()), args=[node.args[0]], keywords=[])
+            items = ast.Call(func=ast.Attribute(value=ns, attr="items", ctx=ast.Load()), args=[], keywords=[])
+            return ast.copy_location(ast.Call(func=ast.Name(id="sorted", ctx=ast.Load()), args=[items], keywords=[]), node)
         # inspect.getmembers(obj, pred) -> [(n, v) for n, v in inspect.getmembers(obj) if pred(v)]     (documented behaviour)
         if f in ("inspect.getmembers", "getmembers") and len(node.args) == 2 and not node.keywords and \
                 (isinstance(node.args[1], ast.Lambda) or norm._attr_chain(node.args[1]) is not None):
@@ -1377,7 +1383,7 @@ class _ExprNorm(ast.NodeTransformer):
             test = self.visit(ast.Call(func=node.args[1], args=[ast.Name(id=b_, ctx=ast.Load())], keywords=[]))
             comp = ast.ListComp(elt=ast.Tuple(elts=[ast.Name(id=a_, ctx=ast.Load()), ast.Name(id=b_, ctx=ast.Load())], ctx=ast.Load()), generators=[
                 ast.comprehension(target=ast.Tuple(elts=[ast.Name(id=a_, ctx=ast.Store()), ast.Name(id=b_, ctx=ast.Store())], ctx=ast.Store()),
-                                  iter=ast.Call(func=node.func, args=[node.args[0]], keywords=[]), ifs=[test], is_async=0)])
+                                  iter=self.visit_Call(ast.Call(func=node.func, args=[node.args[0]], keywords=[])), ifs=[test], is_async=0)])
             return ast.copy_location(self._fuse(comp), node)
         # map(f, xs) -> (f(x) for x in xs)      (f a plain callable reference)
         if f == "map" and len(node.args) == 2 and not node.keywords and norm._attr_chain(node.args[0]) is not None:
@@ -1476,6 +1482,10 @@ class _ExprNorm(ast.NodeTransformer):
             return ast.copy_location(ast.List(elts=node.left.elts + [ast.Starred(value=node.right, ctx=ast.Load())], ctx=ast.Load()), node)
         if isinstance(node.op, ast.Add) and isinstance(node.right, ast.List) and isinstance(node.left, (ast.ListComp,)):
             return ast.copy_location(ast.List(elts=[ast.Starred(value=node.left, ctx=ast.Load())] + node.right.elts, ctx=ast.Load()), node)
+        # [comprehension] + b  ->  [*(comprehension), *b]     (b is a list where this evaluates at all)
+        if isinstance(node.op, ast.Add) and isinstance(node.left, ast.ListComp):
+            gen = ast.GeneratorExp(elt=node.left.elt, generators=node.left.generators)
+            return ast.copy_location(ast.List(elts=[ast.Starred(value=gen, ctx=ast.Load()), ast.Starred(value=node.right, ctx=ast.Load())], ctx=ast.Load()), node)
         # {..} | {..} / a | b on dict displays -> {**a, **b}
         if isinstance(node.op, ast.BitOr) and (isinstance(node.left, ast.Dict) or isinstance(node.right, ast.Dict)):
             def parts(x):
@@ -2451,7 +2461,7 @@ class Canon:
         for s_ in stmts:
             if isinstance(s_, ast.Assign) and len(s_.targets) == 1 and isinstance(s_.targets[0], ast.Name) and defs.get(s_.targets[0].id) == 1:
                 v = s_.value
-                is_dict = isinstance(v, (ast.Dict, ast.DictComp)) or (isinstance(v, ast.Call) and u(v.func) == "dict")
+                is_dict = isinstance(v, (ast.Dict, ast.DictComp)) or (isinstance(v, ast.Call) and u(v.func) in ("dict", "vars"))
                 if not is_dict and isinstance(v, ast.Call):
                     callee = None
                     if isinstance(v.func, ast.Attribute) and isinstance(v.func.value, ast.Name) and v.func.value.id == "self" and cls is not None:
@@ -2470,8 +2480,11 @@ class Canon:
             def _comp(self, node):
                 self.generic_visit(node)
                 g = node.generators[0]
-                if isinstance(g.target, ast.Name) and isinstance(g.iter, ast.Name) and g.iter.id in dicts and not g.is_async:
-                    k, m_ = g.target.id, g.iter.id
+                # (for k in sorted(M): keys are unique, so sorting the items sorts by key)
+                srt = isinstance(g.iter, ast.Call) and isinstance(g.iter.func, ast.Name) and g.iter.func.id == "sorted" and len(g.iter.args) == 1 and not g.iter.keywords
+                it_ = g.iter.args[0] if srt else g.iter
+                if isinstance(g.target, ast.Name) and isinstance(it_, ast.Name) and it_.id in dicts and not g.is_async:
+                    k, m_ = g.target.id, it_.id
                     parts = list(g.ifs) + [x for g2 in node.generators[1:] for x in [g2.iter, *g2.ifs]] + [getattr(node, f) for f in ("elt", "key", "value") if hasattr(node, f)]
                     hits = [n for e in parts for n in ast.walk(e) if isinstance(n, ast.Subscript) and isinstance(n.value, ast.Name) and n.value.id == m_
                             and isinstance(n.slice, ast.Name) and n.slice.id == k and isinstance(n.ctx, ast.Load)]
@@ -2495,6 +2508,8 @@ class Canon:
                             g2.ifs = [S().visit(x) for x in g2.ifs]
                         g.target = ast.Tuple(elts=[ast.Name(id=k, ctx=ast.Store()), ast.Name(id=v, ctx=ast.Store())], ctx=ast.Store())
                         g.iter = ast.Call(func=ast.Attribute(value=ast.Name(id=m_, ctx=ast.Load()), attr="items", ctx=ast.Load()), args=[], keywords=[])
+                        if srt:
+                            g.iter = ast.Call(func=ast.Name(id="sorted", ctx=ast.Load()), args=[g.iter], keywords=[])
                 return node
             visit_ListComp = visit_SetComp = visit_DictComp = visit_GeneratorExp = _comp
         return [ast.fix_missing_locations(K().visit(s_)) for s_ in stmts]
